@@ -33,9 +33,16 @@ CLAIMED = {
                  'step-back-by-one, restart-at-0, advance) and at most one scalar operator; the documented patterns '
                  'are proved not irreducible, so they cannot survive anywhere.  The form of reduce() is compared with '
                  'the executable model for every pattern planted at every position of random contexts, and the '
-                 'normal-form predicate (incl. scalar side and idempotence) is evaluated on the implementation.'),
+                 'normal-form predicate (incl. scalar side and idempotence) is evaluated on the implementation.  '
+                 'SIDE OF THE SCALAR (Props/C07Side.lean): HomothetyRule.apply alone puts the single merged scalar at the head when '
+                 'first.out_size <= last.in_size and at the end otherwise, keeping the order of the other operands (no '
+                 'hypothesis); for the whole AlgebraicReductionRule.apply the invariant "at most one scalar, on the side '
+                 'prescribed by the outer sizes of the chain" is carried through the scan for every fuel and firing '
+                 'order (scalar_side, scalar_side_positions), closed in the faithful list denotation (scalar_side_closed); '
+                 'the typing hypotheses are shown necessary by kernel-checked witnesses.'),
         'note': ('Trusted: Lean kernel + standard axioms; encoder/translator; registry order pinned by a kernel-checked '
-                 'table theorem.  The side on which the scalar ends up is checked on the implementation only.'),
+                 'table theorem.  The scalar-side theorem is about chains whose adjacent structures match (what `@` '
+                 'enforces; CompositionOperator([...]) built by hand does not validate them).'),
         'technique': 'Lean 4 proof (loop invariant by induction on fuel) + differential correspondence of reduce() form',
         'design_ref': '§5 C07',
     },
